@@ -810,7 +810,8 @@ def freeslot_exec(run, fx):
                     c[PS + 'm_sibling'] = O.Ptr(kids[i + 1]) if i + 1 < len(kids) else O.Ptr(None)
                 S[PS + 'm_child'] = O.Ptr(kids[0]) if kids else O.Ptr(None)
                 seg = O.Rec({PG + 'm_first': O.Ptr(mkslot(70)), PG + 'm_last': O.Ptr(mkslot(71)), PG + 'm_freeSlots': O.Ptr(None), PG + 'm_silf': O.Ptr(O.Rec()), PG + 'm_face': O.Ptr(O.Rec())})
-                it = O.Interp(fx, natives={'memset': lambda I, f, e, obj, a: None, 'graphite2::Silf::numUser': lambda I, f, e, obj, a: 2})
+                it = O.Interp(fx, natives={'memset': lambda I, f, e, obj, a: None, 'graphite2::Silf::numUser': lambda I, f, e, obj, a: 2,
+                                           'graphite2::Face::logger': lambda I, f, e, obj, a: O.Ptr(None)})
                 it.MAX_STEPS = 4000
                 desc = 'freeSlot of %s with children %s' % ('a base' if P is None else 'child %d of %d' % (pos + 1, nsib), list(kinds) or 'none')
                 cases += 1
